@@ -121,6 +121,12 @@ CenRow(b, scale, z) ==
             IN Sgn(a) * (m * q + (m * r + b.NN[j] \div 2) \div b.NN[j])
      ELSE RoundDivS(a * S, b.n)]
 CenMat(b, scale, Z) == Eag2([i \in 1..Len(Z) |-> CenRow(b, scale, Z[i])])
+\* error bound of CenMat for arbitrary rows: |a| (n-1) 1.5 / NN + 1/2 per entry (<= 2 for training rows, where
+\* NN >= a^2 (n-1); an unseen row far from a low-variance column can be less exact)
+CenErr(b, scale, Z) ==
+  IF ~scale \/ Len(Z) = 0 \/ b.w = 0 THEN 1
+  ELSE MaxSeq([i \in 1..Len(Z) |->
+         MaxSeq([j \in 1..b.w |-> IF b.dn[j] > 0 THEN (3 * Abs(b.n * Z[i][j] - b.cs[j]) * (b.n - 1)) \div (2 * b.NN[j]) + 2 ELSE 1])])
 
 \* n^2 * Xc^T Yc (without scaling) = A_x^T A_y : rank questions do not depend on the column scales
 CrossInt(bx, by) == [j \in 1..bx.w |-> [cc \in 1..by.w |-> SumSeq([i \in 1..bx.n |-> bx.A[i][j] * by.A[i][cc]])]]
@@ -165,17 +171,19 @@ MustSucceed(D, variant, algo, tol, maxit, k) ==
   \/ variant = "svd"
   \/ /\ k = 1 /\ ~D.c1zero /\ D.bx.rank >= 1 /\ D.by.rank >= 1
      /\ \/ algo = "svd" /\ D.c1full
-        \/ algo = "nipals" /\ D.q = 1 /\ (maxit = -1 \/ maxit >= 2)
+        \/ algo = "nipals" /\ variant \in {"reg", "can"} /\ D.q = 1 /\ (maxit = -1 \/ maxit >= 2)
 
 CheckWhy(variant, tol, maxit, ev) ==
   LET pe == ParamErrs(variant, tol, maxit) IN
-  IF pe = {} THEN (IF ev.ok THEN "ok" ELSE "check-rejects-valid")
+  IF ev.ok /\ ev.err # "none" THEN "protocol"
+  ELSE IF pe = {} THEN (IF ev.ok THEN "ok" ELSE "check-rejects-valid")
   ELSE IF ev.ok THEN "check-accepts-invalid"
   ELSE IF ev.err \in pe THEN "ok" ELSE "check-wrong-error"
 
 FitWhy(D, variant, algo, tol, maxit, k, ev) ==
   LET ap == Applicable(variant, tol, maxit, D.n, D.p, D.q, k) IN
-  IF ap # {} THEN
+  IF ev.ok /\ (ev.err # "none" \/ ev.a # 0 \/ ev.b # 0) THEN "protocol"
+  ELSE IF ap # {} THEN
        IF ev.ok THEN "fit-accepts-invalid-request"
        ELSE IF ev.err \notin ap THEN "fit-wrong-error"
        ELSE IF ev.err = "ncomp" /\ ~(ev.a = UpperBound(variant, D.n, D.p, D.q) /\ ev.b = k) THEN "ncomp-message"
@@ -323,7 +331,6 @@ CcaPairOk(E, eE, F, eF, t, u) ==
            IN \/ ~(Abs(gb) <= Lim /\ Abs(ga) <= Lim)
               \/ Abs(MulF(gb, aa) - MulF(ga, ab))
                    <= (egb * aa + eaa * Abs(gb) + ega * Abs(ab) + eab * Abs(ga)) \div S + 3
-                        + (Abs(MulF(gb, aa)) + Abs(MulF(ga, ab))) \div 50      \* 2 % : pseudo-inverses with an absolute cut-off
   IN \/ ~(tt <= Lim /\ uu <= Lim /\ Abs(tu) <= Lim)
      \/ /\ side(E, eE, t, u, tt, ett, tu, etu)
         /\ side(F, eF, u, t, uu, euu, tu, etu)
@@ -377,6 +384,10 @@ Converged(D, algo, tol) == algo = "svd" \/ D.p = 1 \/ D.q = 1 \/ tol = "tight"
 \* "svd-rank-deficient"): components after the first, or a first cross-product that is not of full rank
 SvdDev == "svd-rank-deficient"
 SvdExcused(D, algo, l, devs) == SvdDev \in devs /\ algo = "svd" /\ (l >= 2 \/ ~D.c1full)
+\* mode B (CCA, power method) takes pseudo-inverses of the deflated blocks through the same SVD: a block is rank
+\* deficient after the first deflation, or from the start when its centred rank is below min(n, columns)
+SvdExcusedB(D, l, devs) ==
+  SvdDev \in devs /\ (l >= 2 \/ D.bx.rank < Min2(D.n, D.p) \/ D.by.rank < Min2(D.n, D.q))
 
 StructWhy(D, variant, algo, tol, o, tb, devs) ==
   LET k == o.k
@@ -389,6 +400,7 @@ StructWhy(D, variant, algo, tol, o, tb, devs) ==
   IN
   IF \E l \in 1..k : ~UnitOk(W(l)) THEN "x-weights-unit-norm"
   ELSE IF (canon \/ algo = "svd") /\ \E l \in 1..k : ~UnitOk(Cw(l)) THEN "y-weights-unit-norm"
+  ELSE IF ~canon /\ algo = "nipals" /\ \E j \in 1..D.q : \E l \in 1..k : Abs(o.yw[j][l] - o.yl[j][l]) > 1 THEN "y-weights-regression"
   ELSE IF \E l \in 1..k : ~MatVecOk(tb.E[l], tb.eE[l], W(l), T(l)) THEN "x-scores-definition"
   ELSE IF canon /\ \E l \in 1..k : ~MatVecOk(tb.F[l], tb.eF[l], Cw(l), U(l)) THEN "y-scores-definition"
   ELSE IF \E l \in 1..k : \E l2 \in (l + 1)..k : ~OrthOk(T(l), T(l2)) THEN "x-scores-orthogonal"
@@ -404,7 +416,7 @@ StructWhy(D, variant, algo, tol, o, tb, devs) ==
        THEN "weights-singular-pair"
   ELSE IF algo = "svd" /\ ~SvdExcused(D, algo, 1, devs) /\ ~DominantOk(tb.C[1], tb.dC[1], W(1)) THEN "weights-dominant"
   ELSE IF ~modeA /\ Converged(D, algo, tol)
-          /\ \E l \in 1..k : ~CcaPairOk(tb.E[l], tb.eE[l], tb.F[l], tb.eF[l], T(l), U(l))
+          /\ \E l \in 1..k : ~SvdExcusedB(D, l, devs) /\ ~CcaPairOk(tb.E[l], tb.eE[l], tb.F[l], tb.eF[l], T(l), U(l))
        THEN "cca-stationarity"
   ELSE "ok"
 
